@@ -16,6 +16,13 @@ ReqAuthsAll == AuthKinds \ {"keyOtherSrv", "keyOtherCli", "keyOtherIA"}
 RespMutsAll == {"pass", "strip", "macFlip", "covHdr", "covPath", "covPld", "tsFlip", "rsvFlip", "uncovFlip",
                 "spiFlip", "algoFlip"}
 
+\* extension chains: every path with the plain chain, the other chains with two paths
+PlainOf(ps) == {<<x, "e2e">> : x \in ps}
+PathExtsAll   == PlainOf(PathsAll) \cup ({EmptyPath, P2} \X (Exts \ {"e2e"}))
+PathExtsSmall == PlainOf(PathsSmall) \cup ({EmptyPath} \X (Exts \ {"e2e"}))
+PathExtsK     == PlainOf({EmptyPath})
+RespExtsAll   == {"e2e", "hbh"}
+RespExts1     == {"e2e"}
 CIAs1   == {"iaC"}
 CHosts1 == {"C"}
 \* ---- key regime "drkey": sequences of authenticated requests to one listener
@@ -62,7 +69,7 @@ ASSUME SPIClient = 196731 /\ SPIServer = 131195 /\ AuthOptDataLen = 28
 GenStop == pc \in {"l4", "port", "addr", "path", "auth"} /\ cauth
 Case ==
   [mode |-> mode, ul |-> req.ul, l4 |-> req.l4, dp |-> req.dp, dh |-> req.dh, sfam |-> req.sfam, dfam |-> req.dfam,
-   path |-> req.path, pl |-> req.pl0, ak |-> req.ak,
+   path |-> req.path, pl |-> req.pl0, ak |-> req.ak, ext |-> req.ext,
    expected |-> ExpectedReq(req), macok |-> MacOK(req, ReqKey(req)),
    wact |-> PredictAct(mode, req), wauthd |-> PredictAuthd(mode, req)]
 Emit == (pc = "sent" /\ cauth) => PrintT(<<"CASE", ToJson(Case)>>)
@@ -73,9 +80,9 @@ ClientShaped == /\ mode = "server"
                 /\ pc \notin {"l4"} => (req.ul = "srv" /\ req.l4 = "udp" /\ req.pl0 = "ntp")
                 /\ pc \notin {"l4", "port"} => (req.dp = "srv" /\ req.dh = "S")
                 /\ pc \notin {"l4", "port", "addr"} => (req.sfam = 4 /\ req.dfam = 4)
-                /\ pc \notin {"l4", "port", "addr", "path"} => req.path.kind \in {"empty", "scion"}
+                /\ pc \notin {"l4", "port", "addr", "path"} => (req.path.kind \in {"empty", "scion"} /\ req.ext \in {"e2e", "hbh"})
 E2ECase ==
-  [cauth |-> cauth, path |-> req.path, ak |-> req.ak, rm |-> rm,
+  [cauth |-> cauth, path |-> req.path, ak |-> req.ak, rm |-> rm, ext |-> req.ext, rext |-> resp.ext,
    expected |-> ExpectedReq(req), macok |-> MacOK(req, ReqKey(req)),
    wact |-> act, wauthd |-> authd,
    rexpected |-> IF cres = "-" THEN FALSE ELSE ExpectedResp(resp),
